@@ -178,10 +178,6 @@ def classify(case, impl, model, oracle):
     return "s:" + ("dedup" if impl.startswith("ok") and impl.count(",") < f[3].count(",") else impl.split()[0])
 
 
-def finding_matches(entry, case, impl, model, oracle):
-    return False
-
-
 CHECK = {
     "property": "C19",
     "props": "Props/C19.v",
